@@ -473,31 +473,47 @@ def r2(prog, rep):
 
 
 def _len_chains(f):
-    """if/elif chains of the form `<subject> == <int>`: subject text -> ({int: body}, final else body)"""
+    """dispatches of the form `<subject> == <int>`: subject text -> ({int: body}, final else body).
+    Understood spellings: if/elif/else chains, nested ifs in else arms, and the guard-clause form
+    of the last arm (`if not <subject> == k: raise` followed by the arm for k)."""
     out = {}
     mod = f.module
     seen = set()
-    for n in ast.walk(f.node):
-        if not isinstance(n, ast.If) or id(n) in seen:
-            continue
-        arms, cur, subj = {}, n, None
-        while True:
-            t = cur.test
-            if not (isinstance(t, ast.Compare) and len(t.ops) == 1 and isinstance(t.ops[0], ast.Eq) and isinstance(t.comparators[0], ast.Constant) and isinstance(t.comparators[0].value, int)):
-                break
-            sj = mod.code(inline_temporaries(f.node, t.left, inline_calls=True))
-            if subj is None:
-                subj = sj
-            elif sj != subj:
-                break
+    exits = lambda b: bool(b) and isinstance(b[-1], (ast.Return, ast.Raise, ast.Continue, ast.Break))
+
+    def eq_int(t):
+        if isinstance(t, ast.Compare) and len(t.ops) == 1 and isinstance(t.ops[0], ast.Eq) and isinstance(t.comparators[0], ast.Constant) and type(t.comparators[0].value) is int:
+            return mod.code(inline_temporaries(f.node, t.left, inline_calls=True)), t.comparators[0].value
+        return None
+
+    def chain(block, i, arms, subj):
+        """continue a dispatch on `subj` at statement i of block; returns the final else body"""
+        cur = block[i]
+        t = cur.test
+        e = eq_int(t)
+        if e and (subj is None or e[0] == subj):
             seen.add(id(cur))
-            arms[t.comparators[0].value] = cur.body
-            if len(cur.orelse) == 1 and isinstance(cur.orelse[0], ast.If):
-                cur = cur.orelse[0]
+            arms[e[1]] = cur.body
+            subj = e[0]
+            if cur.orelse and isinstance(cur.orelse[0], ast.If):
+                s2, rest = chain(cur.orelse, 0, arms, subj)
+                return s2, rest
+            return subj, cur.orelse
+        neg = eq_int(t.operand) if isinstance(t, ast.UnaryOp) and isinstance(t.op, ast.Not) else None
+        if neg and (subj is None or neg[0] == subj) and exits(cur.body):
+            seen.add(id(cur))
+            arms[neg[1]] = list(cur.orelse) if cur.orelse else list(block[i + 1:])
+            return neg[0], cur.body
+        return subj, list(block[i:])
+
+    for blk in _blocks_of(f.node):
+        for i, n in enumerate(blk):
+            if not isinstance(n, ast.If) or id(n) in seen:
                 continue
+            arms = {}
+            subj, rest = chain(blk, i, arms, None)
             if subj and len(arms) > 1 and subj not in out:
-                out[subj] = (arms, cur.orelse)
-            break
+                out[subj] = (arms, rest)
     return out
 
 
